@@ -430,7 +430,8 @@ class BaseProperty(base.BaseObject):
 
         new_value = self._convert_value_input(new_value)
 
-        if self._dtype is None:
+        inferred_dtype = self._dtype is None
+        if inferred_dtype:
             self._dtype = dtypes.infer_dtype(new_value[0])
 
         # Python2 legacy code for loading odml style tuples from YAML or JSON.
@@ -444,6 +445,9 @@ class BaseProperty(base.BaseObject):
             if self._dtype in ("date", "time", "datetime"):
                 req_format = dtypes.default_values(self._dtype)
                 msg += " \'%s\'! Format should be \'%s\'." % (self._dtype, req_format)
+            # A refused assignment must not leave an inferred dtype behind.
+            if inferred_dtype:
+                self._dtype = None
             raise ValueError(msg)
 
         self._values = [dtypes.get(v, self.dtype) for v in new_value]
